@@ -6,13 +6,15 @@
  * -P part=1  round trip of catalogue values through every marshal/unmarshal pair, all splits
  * -P part=2  sweep: every tag / 32-bit integer value in a range (all 2^32 with sweepbits=32)
  * -P part=3  arbitrary byte strings: all strings of length <= alen over an abits-value alphabet (all splits)
- *            and of length alen+1..blen over a 4|5-value alphabet (<= 2 cuts); -P all3=1: all 2^24 3-byte strings
+ *            and of length alen+1..blen over a 4|5-value alphabet (<= 2 cuts); -P all3=1: all 2^16 2-byte strings, each also extended by the 32 alphabet bytes
  * Reference codec (from the wire-format comment of event_tagging.c):
  *   Tag = HByte* LByte, 7 bits per byte least significant first, at most 32 bits;
  *   Integer = first nibble = number of nibbles - 1, then the nibbles least significant first, padded to a byte;
  *   Item = Tag Integer(length) Data.
  */
 #include "mcx.h"
+/* small ASan quarantine: freed blocks are reused quickly instead of every malloc touching fresh pages (20-40x faster here) */
+const char *__asan_default_options(void) { return "quarantine_size_mb=4:thread_local_quarantine_size_kb=64"; }
 #include <stdio.h>
 #include <stdlib.h>
 #include <string.h>
@@ -254,15 +256,16 @@ static void item_bytes_b(uint64_t idx)
 	mc_nontrivial(0x1000000 + idx);
 	mc_observe("all %llu byte strings of length %d starting %02x %02x over {00 10 80 8f 01}[0..%d), every split with <= 2 cuts", (unsigned long long)total, len, b[0], b[1], BSYM);
 }
-/* sub-range c: every 3-byte string (item = first two bytes) */
+/* sub-range c: every 2-byte string (all 2^16) and each extended by every byte of the 32-value alphabet */
 static void item_bytes_c(uint64_t idx)
 {
 	memset(rep, 0, sizeof rep);
 	u8 b[3] = { (u8)(idx >> 8), (u8)idx, 0 };
-	for (int c = 0; c < 256; c++) { b[2] = (u8)c; for (unsigned cuts = 0; cuts < 4; cuts++) run_all_decoders(b, 3, cuts); }
-	MC_COUNTN("arbitrary_strings", 256); flush_counts();
+	for (unsigned cuts = 0; cuts < 2; cuts++) run_all_decoders(b, 2, cuts);
+	for (int c = 0; c < 32; c++) { b[2] = ALPHA32[c]; for (unsigned cuts = 0; cuts < 4; cuts++) run_all_decoders(b, 3, cuts); }
+	MC_COUNTN("arbitrary_strings", 33); flush_counts();
 	mc_nontrivial(0x2000000 + idx);
-	mc_observe("all 256 byte strings %02x %02x xx, every split", b[0], b[1]);
+	mc_observe("byte string %02x %02x and its 32 extensions by one byte of the 32-value alphabet, every split", b[0], b[1]);
 }
 
 /* ------------------------------------------------------------ part 1: round trips */
@@ -519,37 +522,51 @@ static void item_roundtrip(uint64_t idx)
 
 /* ------------------------------------------------------------ part 2: sweep */
 static int SWEEPBITS = 20;
+static uint32_t sweep_value(uint64_t i)
+{
+	/* with sweepbits < 32 the candidates are spread: half by an odd multiplier, half around every encoding-length boundary */
+	if (SWEEPBITS >= 32) return (uint32_t)i;
+	if (i < (1u << (SWEEPBITS - 1))) return (uint32_t)(i * 2654435761u);
+	uint64_t j = i - (1u << (SWEEPBITS - 1)); int per = (1 << (SWEEPBITS - 1)) / 16; int slot = (int)(j / per); int64_t off = (int64_t)(j % per) - per / 2;
+	static const uint64_t CENTER[16] = { 0x80, 0x4000, 0x200000, 0x10000000, 0x10, 0x100, 0x1000, 0x10000, 0x100000, 0x1000000, 0x10000000, 0x100000000ULL, 0x80000000ULL, 0, 0x8000, 0x800000 };
+	return (uint32_t)(CENTER[slot] + off);
+}
+/* item = 2^16 candidates, in batches of 256: every value is encoded as a tag and as an integer, one after the
+ * other into one buffer (whose chain boundaries fall wherever they fall), the bytes are compared with the
+ * reference encoder, and everything is read back in order */
+#define BATCH 256
 static void item_sweep(uint64_t idx)
 {
-	/* item = 2^16 consecutive candidates; with sweepbits < 32 the candidates are spread: around every encoding-length boundary and strided */
 	struct evbuffer *e = evbuffer_new();
-	int bad_t = 0, bad_i = 0; uint64_t n = 0;
-	for (uint64_t k = 0; k < 65536; k++) {
-		uint64_t i = idx * 65536 + k; uint32_t v;
-		if (SWEEPBITS >= 32) v = (uint32_t)i;
-		else if (i < (1u << (SWEEPBITS - 1))) v = (uint32_t)(i * 2654435761u);                  /* spread */
-		else { uint64_t j = i - (1u << (SWEEPBITS - 1)); int per = (1 << (SWEEPBITS - 1)) / 16; int slot = (int)(j / per); int64_t off = (int64_t)(j % per) - per / 2;
-			static const uint64_t CENTER[16] = { 0x80, 0x4000, 0x200000, 0x10000000, 0x10, 0x100, 0x1000, 0x10000, 0x100000, 0x1000000, 0x10000000, 0x100000000ULL, 0x80000000ULL, 0, 0x8000, 0x800000 };
-			v = (uint32_t)(CENTER[slot] + off); }
-		u8 ref[8]; int rl = enc_tag(ref, v);
-		uint32_t t = ~v;
-		int r = evtag_encode_tag(e, v);
-		size_t len = evbuffer_get_length(e);
-		if ((r != rl || len != (size_t)rl || memcmp(evbuffer_pullup(e, -1), ref, rl)) && ONCE(bad_t)) mc_fail("C42/roundtrip/tag-encoding", "tag %#x: %zu bytes written, reference %d", v, len, rl);
-		r = evtag_decode_tag(&t, e);
-		if ((r != rl || t != v || evbuffer_get_length(e)) && ONCE(bad_t)) { mc_fail("C42/roundtrip/tag", "tag %#x: decode returned %d tag %#x, %zu bytes left", v, r, t, evbuffer_get_length(e)); evbuffer_drain(e, evbuffer_get_length(e)); }
-		rl = enc_int(ref, v); t = ~v;
-		evtag_encode_int(e, v);
-		len = evbuffer_get_length(e);
-		if ((len != (size_t)rl || memcmp(evbuffer_pullup(e, -1), ref, rl)) && ONCE(bad_i)) mc_fail("C42/roundtrip/int-encoding", "%#x: %zu bytes written, reference %d", v, len, rl);
-		r = evtag_decode_int(&t, e);
-		if ((r != 0 || t != v || evbuffer_get_length(e)) && ONCE(bad_i)) { mc_fail("C42/roundtrip/int", "%#x: decode returned %d value %#x, %zu bytes left", v, r, t, evbuffer_get_length(e)); evbuffer_drain(e, evbuffer_get_length(e)); }
-		n++;
+	int bad = 0; uint64_t n = 0;
+	static u8 refbytes[BATCH * 12], got[BATCH * 12];
+	for (uint64_t k0 = 0; k0 < 65536 && !bad; k0 += BATCH) {
+		int rl = 0;
+		for (int k = 0; k < BATCH; k++) {
+			uint32_t v = sweep_value(idx * 65536 + k0 + k);
+			int a = enc_tag(refbytes + rl, v); rl += a;
+			int r = evtag_encode_tag(e, v);
+			if (r != a && ONCE(bad)) mc_fail("C42/roundtrip/tag-encoding", "tag %#x: encode returned %d, reference %d bytes", v, r, a);
+			rl += enc_int(refbytes + rl, v);
+			evtag_encode_int(e, v);
+		}
+		if ((evbuffer_get_length(e) != (size_t)rl || evbuffer_copyout(e, got, rl) != rl || memcmp(got, refbytes, rl)) && ONCE(bad)) {
+			mc_fail("C42/roundtrip/sweep-encoding", "values from %#x: %zu bytes written, reference %d bytes, or the bytes differ", sweep_value(idx * 65536 + k0), evbuffer_get_length(e), rl); break; }
+		for (int k = 0; k < BATCH; k++) {
+			uint32_t v = sweep_value(idx * 65536 + k0 + k), t = ~v, w = ~v;
+			u8 tmp[8]; int a = enc_tag(tmp, v);
+			int r = evtag_decode_tag(&t, e);
+			if ((r != a || t != v) && ONCE(bad)) { mc_fail("C42/roundtrip/tag", "tag %#x: decode returned %d tag %#x", v, r, t); break; }
+			r = evtag_decode_int(&w, e);
+			if ((r != 0 || w != v) && ONCE(bad)) { mc_fail("C42/roundtrip/int", "%#x: decode returned %d value %#x", v, r, w); break; }
+			n++;
+		}
+		if (!bad && evbuffer_get_length(e) && ONCE(bad)) mc_fail("C42/roundtrip/sweep-leftover", "%zu bytes left after reading everything back", evbuffer_get_length(e));
 	}
 	evbuffer_free(e);
 	MC_COUNTN("sweep_values", n);
 	mc_nontrivial(0x4000000 + idx);
-	mc_observe("sweep block %llu: 65536 values as tag and as integer, encode -> reference bytes -> decode", (unsigned long long)idx);
+	mc_observe("sweep block %llu: values %#x.. as tag and as integer, %d at a time into one buffer, bytes == reference encoder, read back in order", (unsigned long long)idx, sweep_value(idx * 65536), BATCH);
 }
 
 /* ------------------------------------------------------------ */
